@@ -87,14 +87,18 @@ def unit64 (w : UInt64) : Rat := ((w.toNat / 2 ^ 12 : Nat) : Rat) / ((2 ^ 52 : N
 /-- the 23 mantissa bits of a `next_u32` word as a number in [0,1): `(w >> 9) · 2^-23` -/
 def unit32 (w : UInt32) : Rat := ((w.toNat / 2 ^ 9 : Nat) : Rat) / ((2 ^ 23 : Nat) : Rat)
 
-/-- one iteration of `UniformFloat::<f64>::sample_single(low, high)` with a finite scale:
-    `res = value0_1 * scale + low` (two roundings); `none` = `res >= high`, draw again -/
-def uniformF64 (low high : F64) (w : UInt64) : Option FV :=
+/-- `res = value0_1 * scale + low` of one iteration of `UniformFloat::<f64>::sample_single`
+    (two roundings; `scale = high - low` is finite after validation and never changes) -/
+def uniformRes (low high : F64) (w : UInt64) : FV :=
   let l := val64 low
   let h := val64 high
   let scale := sub f64 h l
-  let res := add f64 (mul f64 (.fin (unit64 w)) scale) l
-  if lt res h then some res else none
+  add f64 (mul f64 (.fin (unit64 w)) scale) l
+
+/-- one iteration of `UniformFloat::<f64>::sample_single(low, high)`:
+    `none` = `res >= high`, draw again -/
+def uniformF64 (low high : F64) (w : UInt64) : Option FV :=
+  if lt (uniformRes low high w) (val64 high) then some (uniformRes low high w) else none
 
 /-- one iteration of `UniformFloat::<f32>::sample_single(low, high)` -/
 def uniformF32 (low high : F32) (w : UInt32) : Option FV :=
